@@ -295,9 +295,12 @@ class ColorVisuals(Visuals):
             # will be in data
             return self._data[key_colors]
 
-        elif key_colors in self._cache:
+        elif key_colors in self._cache and (
+            count is None or len(self._cache[key_colors]) == count
+        ):
             # if the colors have been autogenerated already they
-            # will be in the cache
+            # will be in the cache, unless they were generated for
+            # a mesh with a different number of faces or vertices
             colors = self._cache[key_colors]
             # if the cached colors have been changed since creation we move
             # them to data
@@ -492,6 +495,10 @@ class ColorVisuals(Visuals):
         mask = np.asanyarray(mask)
         if key in self._data:
             self._data[key] = self._data[key][mask]
+        # generated (default or converted) colors in the cache are for
+        # the previous number of elements so drop them
+        self._cache.delete(key)
+        self._cache.delete(key + "_hash")
 
 
 class VertexColor(Visuals):
